@@ -30,6 +30,7 @@ func main() {
 		dagMaxH  = flag.Int("dagmaxh", 256, "dags: the graph's MaxHeight")
 		replay   = flag.String("replay", "", "replay the history stored in this replay/corpus file (or every *.json in this directory) and report what the oracles say")
 		length   = flag.Int("len", 5, "memokeys: key sequences up to this length")
+		online   = flag.Bool("online", false, "with -par: generate every history online on the parallel graph (no serial twin); always the case for fault profiles")
 		par      = flag.Int("par", 0, "if > 0: replay every history on a graph driven by ParallelStabilize with this parallelism, compare with the serial run, and record the PARALLEL run for the model")
 	)
 	flag.Parse()
@@ -62,13 +63,13 @@ func main() {
 		var mon *eng.Monitor
 		if memo != nil {
 			e, mon, _ = eng.Replay(prof.MaxHeight, memo[i])
-		} else if *par > 0 && prof.WFaultPass > 0 {
+		} else if *par > 0 && (prof.WFaultPass > 0 || *online) {
 			e, mon = eng.RunRandomPar(rng.Fork(), prof, *par)
 		} else {
 			e, mon = eng.RunRandom(rng.Fork(), prof)
 		}
 		findings := mon.Findings
-		if *par > 0 && prof.WFaultPass == 0 {
+		if *par > 0 && prof.WFaultPass == 0 && !*online {
 			pe, _, pf := eng.RunTwin(e, *par, prof.WFaultPass == 0)
 			findings = pf
 			e = pe
@@ -197,7 +198,7 @@ func main() {
 		// the model's own invariants along the same histories: the quiescent well-formedness after
 		// every operation (W) and local consistency + agreement with the from-scratch evaluator
 		// after every successful pass without mid-pass writes (C)
-		if prof.Name != "reject" && prof.Name != "limit" && prof.Name != "dags" { // after a structural rejection the invariants are known not to hold (recorded finding)
+		if prof.Name != "reject" && prof.Name != "limit" && prof.Name != "dags" && prof.Name != "deadobs" { // (deadobs: an observed node of a discarded generation keeps its old edges although invalid, which the quiescent invariant excludes by hypothesis) // after a structural rejection the invariants are known not to hold (recorded finding)
 			b.WriteString("Definition W := Eval vm_compute in omap (fun c : case => wf_trace (init (fst (fst c))) (map fst (snd c)) 0) cases.\nPrint W.\n")
 			b.WriteString("Definition C := Eval vm_compute in omap (fun c : case => c01_hyp_trace (init (fst (fst c))) (map fst (snd c)) 0) cases.\nPrint C.\n")
 		}
